@@ -35,6 +35,7 @@ def run(tier, seed):
     d = tempfile.mkdtemp(prefix='e2p_c18_')
     try:
         nbooks = 25 if tier == 'quick' else 400
+        shared_parser = m['Parser']()
         for b in range(nbooks):
             ns = rng.randint(1, 8)
             titles = rng.sample(TITLES, ns)
@@ -103,7 +104,7 @@ def run(tier, seed):
                 from openpyxl.chart import BarChart
                 wb.create_chartsheet('Chart tab', 0).add_chart(BarChart())
                 chk.count('chartsheet-in-front')
-            path = os.path.join(d, 'wb%d.xlsx' % b)
+            path = os.path.join(d, 'workbook.xlsx')          # the same path for every workbook, and one long-lived parser that is given it again each time
             wb.save(path)
             if b % 3 == 1:
                 stale_dimension(path)       # some writers leave <dimension ref="A1"/> whatever the sheet holds: the reader must not trust it
@@ -112,7 +113,7 @@ def run(tier, seed):
             nwb = load_workbook(path)
             stored = [{(c.column, c.row): c.value for row in nwb[t].iter_rows() for c in row if c.value is not None} for t in titles]
             try:
-                text = m['Parser']().set_excel_file_path(path).disable_safety_check().get_translation()
+                text = shared_parser.set_excel_file_path(path).disable_safety_check().get_translation()
                 cls = realcode.load_class(text)
             except Exception as e:  # noqa
                 chk.violation({'why': 'a readable workbook does not translate', 'error': repr(e)[:300], 'titles': titles, 'stream': 'translate'})
@@ -122,6 +123,10 @@ def run(tier, seed):
             if inst.get_titles() != {t: i for i, t in enumerate(titles)}:
                 chk.violation({'why': 'sheet titles are not reported in workbook order', 'titles': titles, 'impl': repr(inst.get_titles()), 'stream': 'titles'})
             sizes = inst.get_sheets_size()
+            if len(sizes) != len(plan) or list(inst.get_titles()) != titles:
+                chk.violation({'why': 'the translated class does not have the sheets of the workbook at the path (number / titles of sheets)', 'titles': titles,
+                               'impl_titles': repr(inst.get_titles())[:300], 'impl_sizes': repr(sizes)[:200], 'stream': 'titles'})
+                continue
             parsed = Excel.parse(path)
             for (pc, pr), (f, t, c, r) in probes.items():
                 got = outcome_any(lambda: ex.get_cell(Cell('Probe sheet', pc - 1, pr - 1)).value)
